@@ -85,7 +85,12 @@ func (n *c12Node) query(q string) (interface{}, error) {
 		}
 		n.parsed[q] = pq
 	}
-	resp, err := n.srv.executor.Execute(context.Background(), "i", pq, nil, nil)
+	// the executor rewrites call arguments in place (bool / key translation): run a copy
+	run := &pql.Query{Calls: make([]*pql.Call, len(pq.Calls))}
+	for i := range pq.Calls {
+		run.Calls[i] = pq.Calls[i].Clone()
+	}
+	resp, err := n.srv.executor.Execute(context.Background(), "i", run, nil, nil)
 	if err != nil {
 		return nil, err
 	}
@@ -693,7 +698,8 @@ func TestVerif_C12(t *testing.T) {
 	for _, cf := range cfgs {
 		cf := cf
 		h := &vx.Harness{
-			Alphabet: alpha,
+			MultiProcess: true,
+			Alphabet:     alpha,
 			New: func() vx.Instance {
 				n := pool.Get().(*c12Node)
 				if _, err := n.idx.CreateField("f", OptFieldTypeSet(cf.cacheType, cf.size)); err != nil {
